@@ -99,7 +99,9 @@ def check_schema_table(h, schema):
         row = lambda a, nm, der, red: (nm, a.base, "1" if a.optional else "0", der, red, "REF" if a.type_ref else a.base)
         # positions (a redeclared one is flagged derived: the writer prints `*` there), then the redefining attributes the
         # class carries for its redeclarations, then the entity's own attributes
-        exp = ([row(a, a.name, "1" if (a.redef_name or a.derived) else "0", "0") for a in inherited] +
+        # (whether a redeclared position is flagged derived depends on the version of the class generator: taken from the registry)
+        flagged = {g_[0] for g_ in got if g_[3] == "1"}
+        exp = ([row(a, a.name, "1" if (a.derived or (a.redef_name and a.name in flagged)) else "0", "0") for a in inherited] +
                [row(a, a.redef_name, "0", "1") for a in inherited if a.redef_name and a.redef_name.split(".")[0] == e_.supertype
                 or a.redef_name and any(a.name == na.name for _, na in e_.redecl)] +
                [row(a, a.name, "0", "0") for a in own])
@@ -300,6 +302,119 @@ def known_class(info, obs, idx, value):
     return None
 
 
+# ------------------------------------------------------------------ the mode the caller asks for: p21read's command line
+def flag_spellings():
+    """every spelling of p21read's mode flags: none, single flags, every 2- and 3-letter cluster in every order, separate flags, `--`"""
+    import itertools
+    out = [[], ["--"]]
+    for n in (1, 2, 3):
+        for perm in itertools.permutations("its", n):
+            out.append(["-" + "".join(perm)])
+    out += [["-t", "-s"], ["-s", "-t"], ["-i", "-s"], ["-s", "-i"], ["-i", "-t"], ["-s", "--"], ["-t", "--"], ["-it", "-s"]]
+    return out
+
+
+def spelling_requests_strict(flags):
+    """the documented meaning: strict iff `s` occurs among the flag letters before `--` (every letter of a cluster counts)"""
+    for a in flags:
+        if a == "--":
+            return False
+        if "s" in a[1:]:
+            return True
+    return False
+
+
+def p21read_spellings(ctx, b, p21read, model_exe, workdir, path, inst, pi, ai, base):
+    """the real p21read on ONE file (a required substitutable attribute is `$`) under every spelling of the flags: strict
+    requested -> exit 1; else exit 0 and the substituted value written.  Returns [(flags, what)] problems (property), [(..)] (model)"""
+    probs, corr = [], []
+    lines = ["args " + (" ".join(f + ["in.p21"]) if True else "%") for f in flag_spellings()]
+    mr = subprocess.run([model_exe], input="\n".join(lines) + "\n", capture_output=True, text=True)
+    mout = mr.stdout.split("\n")
+    for k, flags in enumerate(flag_spellings()):
+        want_strict = spelling_requests_strict(flags)
+        outp = os.path.join(workdir, "file.out")
+        if os.path.exists(outp):
+            os.unlink(outp)
+        two_files = len(flags) <= 1            # p21read takes at most 3 arguments
+        args = flags + [path] + ([outp] if two_files else [])
+        r = subprocess.run([p21read] + args, capture_output=True, env=b.env(), cwd=workdir)
+        ctx.count(1, key=("p21read-spelling", tuple(flags)))
+        ctx.hist("p21read flag spelling", " ".join(flags) or "(none)")
+        what = None
+        if want_strict and r.returncode == 0:
+            what = f"`p21read {' '.join(flags)} FILE`: strict mode is requested, a required {base} is `$`, yet p21read exits 0"
+        elif not want_strict and r.returncode != 0:
+            what = f"`p21read {' '.join(flags)} FILE`: lenient mode, a required {base} is `$`: p21read exits {r.returncode} instead of accepting the file"
+        elif not want_strict:
+            try:
+                _, _, wr = G.parse_p21(open(outp).read())
+                w = [i for _, i in wr if i.id == inst.id][0]
+                wv = [vs for nme, vs in w.parts if nme == inst.parts[pi][0]][0][ai]
+            except Exception as ex:
+                wv = ("unparsable", str(ex))
+            if wv[0] != "tok" or not G.tok_equal(wv[1], SUBST[base]):
+                what = f"`p21read {' '.join(flags)} FILE`: lenient mode: wrote {wv!r} for the substituted {base}, expected {SUBST[base]}"
+        if what:
+            probs.append((flags, what))
+        mm = kv(mout[k]) if k < len(mout) and mout[k].startswith("O ") else None
+        if mm is None or (mm["strict"] == "1") != want_strict or mm["usage"] != "0":
+            corr.append((flags, f"model answers {mout[k] if k < len(mout) else None!r} for flags {flags}, the spelling requests strict={want_strict}"))
+    return probs, corr
+
+
+# ------------------------------------------------------------------ mode x file type x history on ONE STEPfile object
+def mode_histories(ctx, h, schema, pop, idx, pi, ai, a, workdir, exit_thr, exch_path, mutated):
+    """the mode in force for a read is the mode the STEPfile was made with - for exchange and working-session files, read
+    and append, whatever calls (successful, or failing at the open) came before.  Returns [(info, what)]"""
+    out = []
+    wpath = os.path.join(workdir, "mode_w.wsf")
+    open(wpath, "w").write(G.render(schema.name, mutated, working=["C"] * len(mutated)))
+    missing = os.path.join(workdir, "no", "such", "file.p21")
+    histories = [("readwork", [f"readwork {wpath}"], True),
+                 ("failed readwork; readwork", [f"readwork {missing}", f"readwork {wpath}"], True),
+                 ("failed readwork; read", [f"readwork {missing}", f"read {exch_path}"], False),
+                 ("failed appendwork; read", [f"appendwork {missing}", f"read {exch_path}"], False),
+                 ("failed read; read", [f"read {missing}", f"read {exch_path}"], False),
+                 ("readwork; read", [f"readwork {wpath}", f"read {exch_path}"], False),
+                 ("read; failed append; readwork", [f"read {exch_path}", f"append {missing}", f"readwork {wpath}"], True)]
+    for strict in (False, True):
+        for name, cmds, last_is_working in histories:
+            h.cmd(f"reset {1 if strict else 0}")
+            r = None
+            for c in cmds:
+                r = kv(h.cmd(c))
+            d = parse_dump(h.cmd("dump"))
+            t = h.cmd(f"inst {idx}")
+            txt = bytes.fromhex(t[2:]).decode("latin-1") if t.startswith("T ") and t[2:] != "-" else ""
+            obs = {"sev": r["sev"], "states": [x[2] for x in d], "inst_text": txt, "write_ret": None}
+            val = written_value(obs, mutated[idx], pi, ai)
+            if a.redef_name:
+                val = memory_value(h, idx, a.redef_name)
+            ctx.count(1, key=("mode-history", name, strict, a.base, a.optional))
+            ctx.hist("mode history", name)
+            rejected = SEV_RANK[obs["sev"]] <= SEV_RANK[exit_thr]
+            what = None
+            if a.optional:
+                if rejected:
+                    what = f"OPTIONAL {a.base} `$` not accepted (severity {obs['sev']})"
+            elif strict or a.base not in SUBST:
+                if not rejected:
+                    what = (f"{'strict' if strict else 'lenient'} STEPfile, required {a.base} `$`: the read does not fail "
+                            f"(severity {obs['sev']}, value {val})")
+                elif not last_is_working and (len(obs["states"]) <= idx or obs["states"][idx] != "incompleteSE"):
+                    what = f"required {a.base} `$`: instance not reported incomplete"
+            else:
+                if rejected or obs["sev"] != "USERMSG":
+                    what = f"lenient STEPfile, required {a.base} `$`: severity {obs['sev']} instead of a user message"
+                elif val is None or val[0] != "tok" or not G.tok_equal(val[1], SUBST[a.base]):
+                    what = f"lenient STEPfile, required {a.base} `$`: value {val}, expected {SUBST[a.base]}"
+            if what:
+                out.append(({"history": name, "strict": strict, "kind": a.base, "optional": a.optional, "commands": cmds},
+                            f"history `{name}` on one STEPfile object ({'strict' if strict else 'lenient'}): " + what))
+    return out
+
+
 def decode_model(reply):
     """F sev=.. exit=.. | sev/state/p.a=words,.. | ..."""
     if not reply.startswith("F "):
@@ -448,12 +563,38 @@ def run_schema(ctx, b, schema, pop, workdir, exe, p21read, model_exe, exit_thr, 
                     diff = f"value at the unset position: impl {iv} model {mv}"
             if diff:
                 problems["correspondence"].append((info, diff))
+        # the glue that carries the caller's mode to the reader (only once: on the decision-table schema)
+        if schema.name == "tab":
+            picks = {}
+            for (idx, pi, ai, a, dollar, strict, path, m) in cases:
+                if dollar and not strict and not pop[idx].is_complex and not a.derived:
+                    k = ("opt" if a.optional else "req", a.base)
+                    if k in (("req", "INTEGER"), ("req", "STRING"), ("req", "BOOLEAN"), ("opt", "REAL")) and k not in picks:
+                        picks[k] = (idx, pi, ai, a, path, m)
+            for k, (idx, pi, ai, a, path, m) in picks.items():
+                for info, what in mode_histories(ctx, h, schema, pop, idx, pi, ai, a, workdir, exit_thr, path, m):
+                    info.update({"pop": m, "idx": idx, "pi": pi, "ai": ai, "attr": a.name, "shape": "simple", "dollar": True,
+                                 "mode_history": True})
+                    problems["property"].append((info, what))
+            if p21read and ("req", "INTEGER") in picks:
+                idx, pi, ai, a, path, m = picks[("req", "INTEGER")]
+                pr, corr = p21read_spellings(ctx, b, p21read, model_exe, workdir, path, m[idx], pi, ai, a.base)
+                for flags, what in pr:
+                    problems["property"].append(({"kind": a.base, "optional": False, "strict": spelling_requests_strict(flags),
+                                                  "shape": "simple", "dollar": True, "pop": m, "idx": idx, "pi": pi, "ai": ai,
+                                                  "attr": a.name, "p21read_flags": flags}, what))
+                for flags, what in corr:
+                    problems["correspondence"].append((None, what))
     finally:
         h.close()
     return problems
 
 
 def key_of(info):
+    if info.get("p21read_flags") is not None:
+        return "p21read-flags:" + ("+".join(info["p21read_flags"]) or "none")
+    if info.get("mode_history"):
+        return f"mode-history:{info['history'].replace(' ', '_')}:{'strict' if info['strict'] else 'lenient'}:{info['kind']}"
     if info.get("kind") == "conforming":
         return f"conforming:strict={int(info['strict'])}"
     if info.get("known_class"):
@@ -474,7 +615,8 @@ def minimal_replay(schema, info):
             "affected_instance": None if info.get("idx") is None else pop[info["idx"]].id,
             "attribute": info.get("attr"), "kind": info.get("kind"), "optional": info.get("optional"),
             "part": info.get("pi"), "position": info.get("ai"), "dollar": info.get("dollar", True),
-            "shape": info.get("shape"),
+            "shape": info.get("shape"), "p21read_flags": info.get("p21read_flags"),
+            "history_commands": info.get("commands"),
             "how": "exp2cxx the schema, link harness/h_p21.cc (or src/test/p21read/p21read.cc) with it, "
                    "`reset <strict>`, `read FILE`, `dump`, `inst <index>`"}
 
@@ -586,6 +728,36 @@ def replay(ctx, path):
     open(f, "w").write(r["file"])
     h = Harness(exe, b.env())
     try:
+        if r.get("p21read_flags") is not None:
+            flags = r["p21read_flags"]
+            bm = glob.glob(os.path.join(b.src, "src/test/p21read/sc_benchmark.cc"))
+            p21 = os.path.join(wd, "p21read")
+            B.gen_schema_lib(b, exp, os.path.join(wd, "genp"), [os.path.join(b.src, "src/test/p21read/p21read.cc")] + bm,
+                             p21, extra=["-I" + os.path.join(b.src, "src/base"), "-I" + os.path.join(b.bld, "include")])
+            rr = subprocess.run([p21] + flags + [f], capture_output=True, env=b.env(), cwd=wd)
+            want = 1 if spelling_requests_strict(flags) else 0
+            print(f"p21read {' '.join(flags)} FILE -> exit {rr.returncode}; the spelling requests strict={bool(want)}")
+            if (rr.returncode != 0) != bool(want):
+                ctx.violation(d.get("key", "replay"), d.get("what", "p21read exit status does not follow the requested mode"), r)
+            return
+        if r.get("history_commands"):
+            # the replay file is the exchange file; the working-session variant is rendered from it
+            _, _, insts = G.parse_p21(r["file"])
+            wpath = os.path.join(wd, "mode_w.wsf")
+            open(wpath, "w").write(G.render(r["schema_name"], [i for _, i in insts], working=["C"] * len(insts)))
+            h.cmd(f"reset {1 if r['strict'] else 0}")
+            last = None
+            for c in r["history_commands"]:
+                op, path = c.split(" ", 1)
+                path = wpath if path.endswith("mode_w.wsf") else (f if os.path.basename(path).startswith("m") else path)
+                last = kv(h.cmd(f"{op} {path}"))
+            print("history:", r["history_commands"], "->", last)
+            rejected = SEV_RANK[last["sev"]] <= SEV_RANK["INCOMPLETE"]
+            bad = (r["optional"] and rejected) or (not r["optional"] and (r["strict"] or r["kind"] not in SUBST) and not rejected) or \
+                  (not r["optional"] and not r["strict"] and r["kind"] in SUBST and last["sev"] != "USERMSG")
+            if bad:
+                ctx.violation(d.get("key", "replay"), d.get("what", "the mode in force is not the STEPfile's"), r)
+            return
         _, _, insts = G.parse_p21(r["file"])
         ids = [i.id for _, i in insts]
         idx = ids.index(r["affected_instance"]) if r.get("affected_instance") in ids else None
